@@ -113,7 +113,12 @@ fn id_txt(id: &Id) -> String {
 }
 
 fn load_tables() -> Vec<Codec> {
-    let txt = std::fs::read_to_string(TABLES).unwrap_or_else(|e| panic!("{}: {}", TABLES, e));
+    // ./check exports VERIF_ROOT (the harness may be built from a private copy when another tree is checked)
+    let path = match std::env::var("VERIF_ROOT") {
+        Ok(r) => format!("{}/coq/theories/Gen/C14_tables.txt", r),
+        Err(_) => TABLES.to_string(),
+    };
+    let txt = std::fs::read_to_string(&path).unwrap_or_else(|e| panic!("{}: {}", path, e));
     let mut out = vec![];
     for line in txt.lines() {
         if line.starts_with('#') || line.is_empty() {
